@@ -1,0 +1,27 @@
+//go:build verif
+
+package l1
+
+import "context"
+
+// Verification hook (add-only, compiled only with -tags verif): thin wrappers
+// around the unexported steps of Client so that /verif/harness/cmd/c17 can drive
+// them one at a time, deterministically. No behaviour of its own.
+
+// VerifApply calls applyStateUpdate.
+func (c *Client) VerifApply(u *StateUpdate) { c.applyStateUpdate(u) }
+
+// VerifSetL1Head calls setL1Head.
+func (c *Client) VerifSetL1Head(ctx context.Context) error { return c.setL1Head(ctx) }
+
+// VerifCatchUp calls catchUpL1HeadUpdates.
+func (c *Client) VerifCatchUp(ctx context.Context) error { return c.catchUpL1HeadUpdates(ctx) }
+
+// VerifBuffer returns a copy of the non-finalised log buffer.
+func (c *Client) VerifBuffer() map[uint64]StateUpdate {
+	out := make(map[uint64]StateUpdate, len(c.nonFinalisedLogs))
+	for k, v := range c.nonFinalisedLogs {
+		out[k] = *v
+	}
+	return out
+}
